@@ -14,7 +14,7 @@ claim('C10', 'Proof by inductive object invariant on the real Frame class (abstr
 claim('C09', 'Proof of the round-trip postcondition on the real MQ.frames2topicmsgs / MQ.topicmsgs2frames and the real Frame members they call: for every '
       'frame kind (no image, jpg-only, raw writable/read-only, jpg-cached), GRAY/BGR/RGB, empty or non-empty data and outputs_jpg in {None, True, False}: '
       'same topics, equal data, same image presence, same height/width/format, raw pixels identical, existing JPEG kept byte for byte, otherwise an '
-      'encoding of the sent pixels that decodes to the declared shape, message part count per the dataidx arithmetic. Pixels/data/sizes symbolic; 0..2 topics.', '6-C09')
+      'encoding of the sent pixels that decodes to the declared shape, the raw image part is a copy (shares no memory with the frame), message part count per the dataidx arithmetic. Pixels/data/sizes symbolic; 0..2 topics.', '6-C09')
 claim('C01', 'Proof, for every arrival order / delay / loss / skip / restart history (one more message of arbitrary source, id, topic and kind is universally quantified), '
       'that the real ZMQReceiver.recv only returns sets in which every synchronized source contributed exactly the subscribed topics it published under the returned id: '
       'inductive invariant of its three loops + postconditions at return; one id and one topics list per ZMQSender.send; MQ.recv/MQ.send carry the received id to the next '
@@ -37,8 +37,8 @@ claim('C07', 'Proof that a balanced ZMQSender.send publishes all messages of a c
 claim('C08', 'Proof by exhaustive symbolic execution of the real Filter.run (real exit, fini) with abstract stages that may return, call exit(), obey a propagated exit or raise at any '
       'lifecycle point, for all 4 propagate policies x loop_exc, any number of loop iterations (cut-point): shutdown exactly once iff setup completed, MQ destroyed exactly once iff '
       'created, stop event set, run() returns for clean exits and raises for errors (Python in-flight-exception semantics), announcement exactly once with the right kind before '
-      'teardown iff the policy covers it; real Filter.init: exit_after forms become the right deadline, obey policy of on_exit_msg; real Filter.loop_once: clean exit at the end of '
-      'the first iteration whose clock reached the deadline; real MQ.send_exit_msg / ZMQReceiver.send_oob / Sender.send_push / ZMQSender.send_oob: the announcement is handed to the request channel of every source that has one (heard or not) and to every PUB socket. Whole-pipeline termination is NOT decided.', '6-C08')
+      'teardown iff the policy covers it; real Filter.init + real Filter.loop_once end to end (two clocks advancing together): the first iteration that ends after the configured deadline '
+      '(seconds / m:s since init, or the @time instant) exits cleanly, none before it; obey policy of on_exit_msg; real MQ.send_exit_msg / ZMQReceiver.send_oob / Sender.send_push / ZMQSender.send_oob: the announcement is handed to the request channel of every source that has one (heard or not) and to every PUB socket. Whole-pipeline termination is NOT decided.', '6-C08')
 claim('C18', 'Proof over the real Filter.run/init/exit/fini (abstract stages, ghost event log) and the real OpenFilterLineage methods of: exactly one START, emitted first and before '
       'the heartbeat thread starts; one run id per emitter on every event; the heartbeat thread emits RUNNING* then exactly one COMPLETE only after its stop event. The terminal-event '
       'clauses (exactly one terminal event, COMPLETE iff clean) FAIL on this tree at 7 emitting call sites and are recorded as known findings (one per call site and clause); they are '
